@@ -1,13 +1,18 @@
-"""python -m pyvc.dump specs.mod target substring-of-obligation-name  -> writes /tmp/vc.smt2"""
+"""python -m pyvc.dump specs.mod target substring-of-obligation-name [case]  -> writes /tmp/vc.smt2"""
 import importlib, sys, itertools
 from pyvc.engine import Engine
 from pyvc.spec import REGISTRY
 from pyvc import smt
 importlib.import_module(sys.argv[1])
 con = REGISTRY[sys.argv[2]]
-names = list(con.sig); alts=[con.sig[n].alternatives() for n in names]
-for combo in itertools.product(*alts):
-    en = Engine(con, dict(zip(names, combo))).run()
+case = sys.argv[4] if len(sys.argv) > 4 else None
+cases=[]
+for sig in con.sigs:
+    names = list(sig); alts=[sig[n].alternatives() for n in names]
+    cases += [dict(zip(names, c)) for c in itertools.product(*alts)]
+for sc in cases:
+    en = Engine(con, sc, case=case).run()
     for ob in en.obligations.values():
         if sys.argv[3] in ob.name:
             open('/tmp/vc.smt2','w').write(smt.to_smt2(ob)); print("wrote", ob.name); sys.exit(0)
+print("not found")
